@@ -4,6 +4,7 @@
 import BEI.Model.App
 import BEI.Model.Conditions
 import BEI.Model.Modifiers
+import BEI.Model.BindSet
 namespace BEI.Driver
 open BEI
 
@@ -306,20 +307,10 @@ def showDelivery (d : Delivery) : String :=
   "dlv " ++ toString d.entity ++ " " ++ toString d.action ++ " " ++ showKind d.kind ++ " " ++ showState d.state
     ++ " " ++ showValue d.value ++ " " ++ showOptRat d.elapsed ++ " " ++ showOptRat d.fired
 
-/-- preset expansions (C19): what `Cardinal`, `Bidirectional` and `GamepadStick` bind, with their internal modifiers
-    (id 0: not instrumented, never logged) -/
-def cardinalBinds (n e s w : Input) : List InputBind :=
-  [{ input := n, mods := [Mod.swizzle 0 .yxz] },
-   { input := e },
-   { input := s, mods := [Mod.negate 0 true true true, Mod.swizzle 0 .yxz] },
-   { input := w, mods := [Mod.negate 0 true true true] }]
-
-def bidirBinds (p n : Input) : List InputBind :=
-  [{ input := p }, { input := n, mods := [Mod.negate 0 true true true] }]
-
-def stickBinds (right : Bool) : List InputBind :=
-  [{ input := .padAxis (if right then 2 else 0) },
-   { input := .padAxis (if right then 3 else 1), mods := [Mod.swizzle 0 .yxz] }]
+/-- preset expansions go through the binding-set model (`BSet.bindings`, C19) -/
+def cardinalSet (n e s w : Input) : BSet :=
+  .cardinal (.single { input := n }) (.single { input := e }) (.single { input := s }) (.single { input := w })
+def bidirSet (p n : Input) : BSet := .bidir (.single { input := p }) (.single { input := n })
 
 def showInv : Inv → String
   | .cond id v out _ => "inv " ++ toString id ++ " " ++ showValue v ++ " " ++ showState out
